@@ -40,17 +40,18 @@ type Rec struct {
 	Essential       []string
 	MinForEssential int
 
-	evaluations int
-	skipped     int
-	failedSeen  bool
-	hashes      map[uint64]struct{}
-	hashCapHit  bool
-	labels      map[string]int
-	counters    map[string]int64
-	first       []sample
-	lowest      []sample // kept sorted by hash, at most lowestSamples
-	assumptions []string
-	known       map[string]int // known-finding id -> number of excluded occurrences
+	evaluations  int
+	skipped      int
+	failedSeen   bool
+	hashes       map[uint64]struct{}
+	hashCapHit   bool
+	labels       map[string]int
+	counters     map[string]int64
+	first        []sample
+	lowest       []sample // kept sorted by hash, at most lowestSamples
+	assumptions  []string
+	known        map[string]int // known-finding id -> number of excluded occurrences
+	bulkDistinct int
 }
 
 type sample struct {
@@ -283,6 +284,7 @@ type Fragment struct {
 	Evaluations   int              `json:"evaluations"`
 	Skipped       int              `json:"skipped"`
 	Distinct      int              `json:"distinct_nontrivial"`
+	BulkDistinct  int              `json:"bulk_distinct"`
 	HashCapHit    bool             `json:"hash_cap_hit"`
 	HashFile      string           `json:"hash_file"`
 	Labels        map[string]int   `json:"labels"`
@@ -301,7 +303,7 @@ func (r *Rec) Flush(t testing.TB) {
 	dir := os.Getenv("VERIF_EV_DIR")
 	fr := Fragment{
 		Property: r.Property, Name: r.Name, Rule: r.Rule,
-		Evaluations: r.evaluations, Skipped: r.skipped, Distinct: len(r.hashes),
+		Evaluations: r.evaluations, Skipped: r.skipped, Distinct: len(r.hashes) + r.bulkDistinct, BulkDistinct: r.bulkDistinct,
 		HashCapHit: r.hashCapHit, Labels: r.labels, Counters: r.counters,
 		Assumptions: r.assumptions, Known: r.known, FailedSeen: r.failedSeen,
 	}
@@ -320,7 +322,7 @@ func (r *Rec) Flush(t testing.TB) {
 	}
 	if t != nil {
 		t.Logf("[ev] %s/%s: evaluations=%d distinct_nontrivial=%d skipped=%d labels=%s",
-			r.Property, r.Name, r.evaluations, len(r.hashes), r.skipped, topLabels(r.labels))
+			r.Property, r.Name, r.evaluations, len(r.hashes)+r.bulkDistinct, r.skipped, topLabels(r.labels))
 	}
 	if dir == "" {
 		return
@@ -365,4 +367,22 @@ func NoPanic(t interface {
 		}
 	}()
 	f()
+}
+
+// AddBulk records cases of an enumeration whose members are distinct by
+// construction (exhaustive sweeps): n evaluations of which nontrivial are
+// non-trivial; sample is kept if there is room.
+func (r *Rec) AddBulk(n, nontrivial int, labels map[string]int, samples ...map[string]any) {
+	r.mu.Lock()
+	defer r.mu.Unlock()
+	r.evaluations += n
+	r.bulkDistinct += nontrivial
+	for k, v := range labels {
+		r.labels[k] += v
+	}
+	for _, s := range samples {
+		if len(r.first) < firstSamples+lowestSamples {
+			r.first = append(r.first, sample{0, s})
+		}
+	}
 }
